@@ -41,4 +41,11 @@ func init() {
 		Bounds:  map[string]string{"quick": "limit any int64 >= 0; inflated size 0..64 MiB; decoder an arbitrary predicate of the bytes", "thorough": "same"},
 		Outside: []string{"allocator behaviour: the claim is on bytes requested from the inflater", "negative MaximumDecompressedBodySize (not a size)"},
 	})
+	reg(&PropSpec{ID: "C18",
+		Harnesses: []HarnessSpec{
+			{Name: "VH_C18_uuid", Replay: "native", Unwind: 400},
+		},
+		Bounds:  map[string]string{"quick": "300 consecutive NewV4 calls in one process; every byte of the crypto/rand stream symbolic; short reads of rand.Reader allowed by the io.Reader contract", "thorough": "same"},
+		Outside: []string{"'never repeats / unpredictable' is a probabilistic statement about the OS generator: reduced to source identity (every free bit is a distinct crypto/rand stream bit) and injectivity of the rendering", "goroutine interleavings of NewV4 (C17)"},
+	})
 }
